@@ -16,6 +16,7 @@
 #include <fcntl.h>
 #include <algorithm>
 #include <execinfo.h>
+#include <set>
 
 extern "C" void sim_baton_wait(volatile int *w);
 extern "C" void sim_baton_post(volatile int *w);
@@ -217,8 +218,11 @@ static bool lock_available(LockInfo *l, char mode, Task *t) {
 }
 
 // ------------------------------------------------------------------ scheduler
+static bool g_preempt_on = true;       // scheduling faults (starvation, descheduling) allowed; off while bidib_start_* runs
+void preempt_enable(bool on) { g_preempt_on = on; }
+
 static bool starved_now(Task *t) {
-	return G.p.policy == P_STARVE && t->id == G.p.starve_task && G.now >= G.p.starve_from_us &&
+	return g_preempt_on && G.p.policy == P_STARVE && t->id == G.p.starve_task && G.now >= G.p.starve_from_us &&
 	       G.now < G.p.starve_from_us + G.p.starve_for_us;
 }
 
@@ -288,7 +292,7 @@ static void reschedule(YieldKind k) {
 	// are a handful of steps wide; random task choice alone almost never keeps a task parked inside one for long enough.
 	// The decision is a pure function of (run seed, step), so replays by decision list see the same injections.
 	bool parked = false;
-	if (G.p.preempt_permille && (k == Y_UNLOCK || k == Y_LOCK) && cur->st == T_RUNNABLE && G.now >= G.p.preempt_from_us) {
+	if (G.p.preempt_permille && (k == Y_UNLOCK || k == Y_LOCK) && cur->st == T_RUNNABLE && g_preempt_on) {
 		uint64_t hseed = G.p.seed ^ (G.step * 0xD1B54A32D192ED03ULL) ^ 0x5bd1e995;
 		uint64_t hx = Rng::splitmix(hseed);
 		if (hx % 1000 < G.p.preempt_permille) {
@@ -428,6 +432,7 @@ void join(int id) {
 
 void run_begin(const SchedParams &p) {
 	G.p = p;
+	g_preempt_on = true;
 	G.rng.seed(p.seed ^ 0x5c4ed01e5ULL);
 	G.ntasks = 0;
 	G.now = 0;
@@ -958,3 +963,69 @@ int __wrap_tcsetattr(int fd, int opt, const struct termios *t) {
 }
 
 }  // extern "C"
+
+// =================================================================== lockset monitor for GLib containers
+// GLib is not instrumented: neither ThreadSanitizer nor the function-entry contract monitor sees what happens inside
+// g_queue_* / g_hash_table_* / g_array_*. The library keeps all its shared collections in these containers, so every call
+// that reaches one from the library's objects is intercepted here and judged with the Eraser lockset discipline:
+// VIRGIN -> EXCLUSIVE(first task) -> SHARED / SHARED-MODIFIED once a second task touches the object; from then on the set of
+// locks held at every access (write-mode locks only for modifying calls) is intersected; an empty set in SHARED-MODIFIED means
+// no single lock protects the container. Armed only inside the running window (start returned, stop not yet called).
+namespace sim {
+struct LsObj { int state = 0; int first_task = -1; std::set<int> locks; bool have = false; const char *first_fn = ""; void *first_site = nullptr; std::string last; };
+static std::map<void *, LsObj> g_ls;
+static bool g_ls_armed = false;
+static uint64_t g_ls_checks = 0, g_ls_shared = 0;
+void lockset_arm(bool on) { g_ls_armed = on; g_ls.clear(); }
+uint64_t lockset_checks() { return g_ls_checks; }
+uint64_t lockset_shared_objects() { return g_ls_shared; }
+void lockset_reset_counters() { g_ls_checks = g_ls_shared = 0; }
+static void ls_forget(void *obj) { if (!g_ls.empty()) g_ls.erase(obj); }
+static void ls_access(void *obj, bool write, const char *fn, void *site) {
+	Task *t = me;
+	if (!g_ls_armed || !t || !G.running || !obj) return;
+	g_ls_checks++;
+	LsObj &o = g_ls[obj];
+	std::set<int> held;
+	for (auto &h : t->held) if (!write || h.mode != 'r') held.insert(h.lock);
+	std::string here = std::string(fn) + (write ? " (modifying)" : " (reading)") + " by task " + std::to_string(t->id) + " '" + t->name + "' at " + sym(site) + " holding {";
+	for (auto &h : t->held) here += g_lock_names[(size_t) h.lock] + std::string(h.mode == 'r' ? ":r " : h.mode == 'w' ? ":w " : " ");
+	here += "}";
+	if (o.state == 0) { o.state = 1; o.first_task = t->id; o.first_fn = fn; o.first_site = site; o.last = here; return; }
+	if (o.state == 1) {
+		if (o.first_task == t->id) { o.last = here; return; }
+		o.state = write ? 3 : 2; o.locks = held; o.have = true; g_ls_shared++;
+	} else {
+		std::set<int> inter;
+		for (int l : o.locks) if (held.count(l)) inter.insert(l);
+		o.locks = inter;
+		if (write) o.state = 3;
+	}
+	if (o.state == 3 && o.locks.empty()) {
+		std::string d = "GLib container " + sym(obj) + " is shared between tasks but no single lock is held at all of its accesses: this access: " + here + "; previous access: " + o.last;
+		fail("LOCKSET_EMPTY", std::string(fn) + "<" + sym(site), d);
+	}
+	o.last = here;
+}
+}  // namespace sim
+
+#include <glib.h>
+// (--wrap is applied to the library objects only: the calls below reach GLib itself)
+extern "C" {
+#define LS_SITE __builtin_return_address(0)
+
+void __wrap_g_queue_push_tail(GQueue *q, gpointer d) { { SimScope s_; sim::ls_access(q, true, "g_queue_push_tail", LS_SITE); } g_queue_push_tail(q, d); }
+gpointer __wrap_g_queue_pop_head(GQueue *q) { { SimScope s_; sim::ls_access(q, true, "g_queue_pop_head", LS_SITE); } return g_queue_pop_head(q); }
+gpointer __wrap_g_queue_peek_head(GQueue *q) { { SimScope s_; sim::ls_access(q, false, "g_queue_peek_head", LS_SITE); } return g_queue_peek_head(q); }
+gboolean __wrap_g_queue_is_empty(GQueue *q) { { SimScope s_; sim::ls_access(q, false, "g_queue_is_empty", LS_SITE); } return g_queue_is_empty(q); }
+guint __wrap_g_queue_get_length(GQueue *q) { { SimScope s_; sim::ls_access(q, false, "g_queue_get_length", LS_SITE); } return g_queue_get_length(q); }
+GList *__wrap_g_queue_find_custom(GQueue *q, gconstpointer d, GCompareFunc f) { { SimScope s_; sim::ls_access(q, false, "g_queue_find_custom", LS_SITE); } return g_queue_find_custom(q, d, f); }
+void __wrap_g_queue_free(GQueue *q) { { SimScope s_; sim::ls_access(q, true, "g_queue_free", LS_SITE); sim::ls_forget(q); } g_queue_free(q); }
+gpointer __wrap_g_hash_table_lookup(GHashTable *h, gconstpointer k) { { SimScope s_; sim::ls_access(h, false, "g_hash_table_lookup", LS_SITE); } return g_hash_table_lookup(h, k); }
+gboolean __wrap_g_hash_table_insert(GHashTable *h, gpointer k, gpointer v) { { SimScope s_; sim::ls_access(h, true, "g_hash_table_insert", LS_SITE); } return g_hash_table_insert(h, k, v); }
+void __wrap_g_hash_table_iter_init(GHashTableIter *it, GHashTable *h) { { SimScope s_; sim::ls_access(h, true, "g_hash_table_iter_init", LS_SITE); } g_hash_table_iter_init(it, h); }
+void __wrap_g_hash_table_destroy(GHashTable *h) { { SimScope s_; sim::ls_access(h, true, "g_hash_table_destroy", LS_SITE); sim::ls_forget(h); } g_hash_table_destroy(h); }
+GArray *__wrap_g_array_append_vals(GArray *a, gconstpointer d, guint n) { { SimScope s_; sim::ls_access(a, true, "g_array_append_vals", LS_SITE); } return g_array_append_vals(a, d, n); }
+GArray *__wrap_g_array_remove_range(GArray *a, guint i, guint n) { { SimScope s_; sim::ls_access(a, true, "g_array_remove_range", LS_SITE); } return g_array_remove_range(a, i, n); }
+gchar *__wrap_g_array_free(GArray *a, gboolean f) { { SimScope s_; sim::ls_access(a, true, "g_array_free", LS_SITE); sim::ls_forget(a); } return g_array_free(a, f); }
+}
